@@ -574,7 +574,11 @@ pub fn regenerate() -> (Vec<(String, String)>, Value) {
     use rbx_reflection::ReflectionDatabase;
     use serde::Serialize;
     let mut out = Vec::new();
-    let d = db();
+    let mut sizes = serde_json::Map::new();
+    // the bundled database, and the synthetic one (descriptor shapes the bundled one lacks: a
+    // second hierarchy, enum items that share a value, an enum without items)
+    let synthetic = v2_database();
+    for (which, d) in [("", db()), ("synthetic|", &synthetic)] {
     let summary = |x: &ReflectionDatabase| -> BTreeMap<String, String> {
         let mut m = BTreeMap::new();
         for (cname, c) in x.classes.iter() {
@@ -603,16 +607,15 @@ pub fn regenerate() -> (Vec<(String, String)>, Value) {
         d.serialize(&mut ser).map(|_| buf).map_err(|e| e.to_string())
     }));
     forms.push(("json", serde_json::to_vec(d).map_err(|e| e.to_string())));
-    let mut sizes = serde_json::Map::new();
     for (name, enc) in forms {
         let bytes = match enc {
             Ok(b) => b,
             Err(e) => {
-                out.push((format!("db|regenerate|{}|encode", name), format!("the loaded database cannot be written as {}: {}", name, e)));
+                out.push((format!("db|regenerate|{}{}|encode", which, name), format!("the loaded database cannot be written as {}: {}", name, e)));
                 continue;
             }
         };
-        sizes.insert(name.to_owned(), json!(bytes.len()));
+        sizes.insert(format!("{}{}", which, name), json!(bytes.len()));
         if name == "json" {
             // the JSON form is consumed by rbx_dom_lua, not read back by Rust (it cannot carry the
             // NaN defaults of the bundled database): writing it must succeed, nothing more
@@ -629,15 +632,16 @@ pub fn regenerate() -> (Vec<(String, String)>, Value) {
         })
         .unwrap_or_else(|(s, m)| Err(format!("panic {} {}", s, m)));
         match back {
-            Err(e) => out.push((format!("db|regenerate|{}|decode", name), format!("a database written as {} cannot be loaded again: {}", name, e.chars().take(200).collect::<String>()))),
+            Err(e) => out.push((format!("db|regenerate|{}{}|decode", which, name), format!("a database written as {} cannot be loaded again: {}", name, e.chars().take(200).collect::<String>()))),
             Ok(b) => {
                 let got = summary(&b);
                 if got != want {
                     let k = want.iter().find(|(k, v)| got.get(*k) != Some(v)).map(|(k, _)| k.clone()).or_else(|| got.keys().find(|k| !want.contains_key(*k)).cloned()).unwrap_or_default();
-                    out.push((format!("db|regenerate|{}|differs", name), format!("a database written as {} and loaded again differs, first at {}: {} vs {}", name, k, want.get(&k).map(|s| s.chars().take(160).collect::<String>()).unwrap_or_default(), got.get(&k).map(|s| s.chars().take(160).collect::<String>()).unwrap_or_default())));
+                    out.push((format!("db|regenerate|{}{}|differs", which, name), format!("a database written as {} and loaded again differs, first at {}: {} vs {}", name, k, want.get(&k).map(|s| s.chars().take(160).collect::<String>()).unwrap_or_default(), got.get(&k).map(|s| s.chars().take(160).collect::<String>()).unwrap_or_default())));
                 }
             }
         }
+    }
     }
     (out, Value::Object(sizes))
 }
@@ -848,6 +852,17 @@ fn v2_database() -> ReflectionDatabase<'static> {
     grandchild.superclass = Some(Cow::Borrowed("ZzVerifChild"));
     grandchild.default_properties.insert(Cow::Borrowed("Plain"), Variant::Int32(99));
     database.classes.insert(Cow::Borrowed("ZzVerifGrandchild"), grandchild);
+    // enums of shapes the bundled database lacks: two item names for one value (a superseded
+    // name kept next to its replacement), no items at all, a value above i32::MAX
+    {
+        let mut e = rbx_reflection::EnumDescriptor::new("ZzVerifEnum");
+        e.items.insert(Cow::Borrowed("OldName"), 0);
+        e.items.insert(Cow::Borrowed("NewName"), 0);
+        e.items.insert(Cow::Borrowed("Other"), 1);
+        e.items.insert(Cow::Borrowed("Big"), 0x8000_0001);
+        database.enums.insert(Cow::Borrowed("ZzVerifEnum"), e);
+        database.enums.insert(Cow::Borrowed("ZzVerifEmptyEnum"), rbx_reflection::EnumDescriptor::new("ZzVerifEmptyEnum"));
+    }
     // a second hierarchy with a root of its own ("ends at a root class", not "at Object")
     database.classes.insert(Cow::Borrowed("ZzVerifOtherRoot"), ClassDescriptor::new("ZzVerifOtherRoot"));
     let mut other_child = ClassDescriptor::new("ZzVerifOtherChild");
